@@ -20,3 +20,20 @@ Definition run_kn (inv_me e : float) (d : vec3 float) (size cap : nat) s :=
   fin s (kn_sample (KN inv_me e d) (size, cap) s).
 (** rotate alone (for the replay of the near-z finding) *)
 Definition run_rotate (d r : vec3 float) := ofv (rotate (min_acc (T:=float)) d r).
+
+From Celer Require Import C04.EPlusGG C04.Ionization C04.BetheHeitler C04.Rayleigh C04.FinalStates.
+
+Definition run_eplusgg (fixed : bool) (me e : float) (d : vec3 float) (size cap : nat) s :=
+  fin s (ep_sample fixed (EP me e d) (size, cap) s).
+Definition run_mb (me cut e : float) (d : vec3 float) (is_electron : bool) (size cap : nat) s :=
+  fin s (mb_sample (MB me cut e d is_electron) (size, cap) s).
+Definition run_muhad (kind : Z) (minc e : float) (d : vec3 float) (me tmin : float) (size cap : nat) s :=
+  let k := match kind with 0%Z => KBetheBloch | 1%Z => KMuBB | _ => KBragg end in
+  fin s (mh_sample (MH minc e d me tmin k) (size, cap) s).
+Definition run_bh (me e : float) (d : vec3 float) (cbrt_z log_z coul : float) (size cap : nat) s :=
+  fin s (bh_sample (BH me e d cbrt_z log_z coul) (size, cap) s).
+Definition run_rayleigh (e : float) (d : vec3 float) (a b n : list float) (kfac : float) (size cap : nat) s :=
+  fin s (ry_sample (RY e d a b n kfac) (size, cap) s).
+(** calc_exiting_direction on the implementation's own outputs (Tier B consistency) *)
+Definition run_calc_exit (pin : float) (din : vec3 float) (pout : float) (dout : vec3 float) :=
+  ofv (calc_exiting_direction pin din pout dout).
